@@ -79,9 +79,15 @@ def same_crs_pair(rng: random.Random, kind: Optional[str] = None, ttol: float = 
         k_scale = s if paste else None
         if abs(near) > 0 and (rho_x or rho_y):
             paste = None  # scale error x translation may or may not stay within tolerance: not labelled
+        if near < 0 and 1e-3 <= abs(near) < stol:
+            # the read scale is snapped up from below only within 1e-3 whatever stol says: the code declines (conservative), either answer is
+            # consistent with the statement, so the verdict is left to the consequences (regions, paste == warp)
+            paste = None
     elif kind == "fscale":
-        P = Affine.translation(tx + rng.choice([0, 0.5, rng.random()]), ty) * Affine.scale(rng.choice([0.5, 1.5, 2.2, 0.3, 1.005, 2.5]), rng.choice([0.5, 1.5, 2.2, 1, 3]))
-        paste = False
+        fsx, fsy = rng.choice([0.5, 1.5, 2.2, 0.3, 1.005, 2.5]), rng.choice([0.5, 1.5, 2.2, 1, 3])
+        P = Affine.translation(tx + rng.choice([0, 0.5, rng.random()]), ty) * Affine.scale(fsx, fsy)
+        # 1.005 is "not an integer" only for tolerances below 5e-3
+        paste = None if (abs(fsx - round(fsx)) < 2 * stol and abs(fsy - round(fsy)) < 2 * stol) else False
     elif kind == "mirror":
         P = Affine.translation(tx, ty) * Affine.scale(rng.choice([1, -1]), rng.choice([1, -1]))
         paste, k_scale = True, 1
